@@ -22,8 +22,9 @@ from ..monitor import shadowstore
 LEVEL = "exploration"
 TECHNIQUE = "runtime monitoring under a controlled scheduler: sys.settrace yield points on every line (thorough: opcode) of the jaxtyping package, exhaustive single-preemption of catalogued operation pairs + seeded random multi-preemption schedules + free-running stress; oracle = solo-run equality per thread and shadow-store ownership invariant"
 LEVEL_TEXT = (
-    "Every single preemption (at line granularity; opcode granularity in the thorough tier) of each catalogued operation "
-    "by each probing operation is executed, plus a sample of multi-preemption schedules. 'Every interleaving' cannot be "
+    "Single preemptions of each catalogued operation by each probing operation are executed at line granularity (quick: "
+    "~120 evenly spread points per pair; thorough: opcode granularity, ~500 points per pair), plus a sample of "
+    "multi-preemption schedules, schedules whose workers run in copied contextvars contexts, and free-running stress. 'Every interleaving' cannot be "
     "enumerated: a bug needing two precisely placed preemptions outside the catalogue can be missed."
 )
 LEVEL_NOTE = "Yield points are line/opcode events inside jaxtyping/*.py (any file: refactor-proof); C-level code between them is atomic under the GIL for these pure-Python state updates."
@@ -34,7 +35,7 @@ RULE = (
 )
 ASSUMPTIONS = ["the GIL makes single bytecodes atomic; preemption is modelled at line (quick) / opcode (thorough) boundaries of jaxtyping's own code"]
 SHARD_TIMEOUT = {"quick": 900, "thorough": 3600}
-RANDOM_SCHEDULES = {"quick": 10, "thorough": 320}  # per shard
+RANDOM_SCHEDULES = {"quick": 10, "thorough": 100}  # per shard
 NSHARDS = 16
 
 
@@ -276,7 +277,7 @@ def run_single_preemptions(rec, shard, tier):
         rec.info.setdefault("yield_points", []).append(f"{a}:{K}")
         # quick tier: at most ~120 preemption points per (operation, probe) pair, evenly spread; the
         # offset rotates with the pair so that over the catalogue every residue class is visited
-        step = 1 if tier == "thorough" else max(1, K // 120)
+        step = max(1, K // 500) if tier == "thorough" else max(1, K // 120)
         for k in range(1 + (idx % step), K + 1, step):
             seen = {}
 
